@@ -462,6 +462,11 @@ func (in *Interp) callSSA(caller *frame, callpos token.Pos, fn *ssa.Function, ar
 		if fn.Blocks == nil {
 			in.unsupported("no code for function %s", name)
 		}
+		if pp := pkgPathOf(fn); pp == "reflect" || pp == "internal/reflectlite" || pp == "internal/abi" || pp == "unsafe" {
+			// reflection-driven code cannot be executed symbolically: the code under test reached
+			// a library call that has neither an intercept nor a model
+			in.unsupported("reflection (%s) reached from %s: outside the models/intercepts of this engine", name, callerChain(caller))
+		}
 	}
 	if fn.TypeParams().Len() > 0 && len(fn.TypeArgs()) == 0 {
 		in.unsupported("uninstantiated generic %s", fn)
@@ -629,4 +634,15 @@ func (w *Worker) fnInfoOf(fn *ssa.Function) *fnInfo {
 	}
 	w.fnInfo[fn] = fi
 	return fi
+}
+
+func callerChain(fr *frame) string {
+	s := ""
+	for c, n := fr, 0; c != nil && c.fn != nil && n < 6; c, n = c.caller, n+1 {
+		if n > 0 {
+			s += " < "
+		}
+		s += c.fn.String()
+	}
+	return s
 }
